@@ -123,13 +123,25 @@ def exToks : Array (Array (Option Nat)) :=
 def exG : Grammar :=
   { nodes := table (emit (fun _ => 0) exE 0), comments := none, memo := false, input := exInput, toks := exToks }
 
+def exX : Sem.Env := { g := { rules := [] }, cfg := {}, input := exInput, toks := exToks, groups := #[], g1 := #[] }
+
+/-- the hypotheses of `C01_expr_partial` are satisfiable: table, text and tokens above -/
+example : Hyp exG exX := ⟨rfl, rfl, rfl, rfl, by
+  intro t p h
+  unfold Sem.Env.tokLen at h
+  match t, p with
+  | 0, 0 | 0, 1 | 0, 2 | 0, 3 | 0, 4 | 0, 5 | 0, 6 | 0, 7 | 0, 8 => simp [exX, exToks] at h
+  | 1, 0 | 1, 1 | 1, 2 | 1, 3 | 1, 4 | 1, 5 | 1, 6 | 1, 7 | 1, 8 => simp [exX, exToks] at h
+  | 2, 0 | 2, 1 | 2, 2 | 2, 3 | 2, 4 | 2, 5 | 2, 6 | 2, 7 | 2, 8 => simp [exX, exToks] at h
+  | 3, 0 | 3, 1 | 3, 2 | 3, 3 | 3, 4 | 3, 5 | 3, 6 | 3, 7 | 3, 8 => simp [exX, exToks] at h
+  | 0, p+9 | 1, p+9 | 2, p+9 | 3, p+9 => simp [exX, exToks] at h
+  | t+4, _ => simp [exX, exToks] at h⟩
+
 example : frag exE = true ∧ docExpr nf ff exE = true := by decide
 example : (match parse exG 40 0 (initState true [' ']) with | (.ok _, s) => s.pos | _ => 0) = 8 := by decide +kernel
 example : (match Sem.pExpr { g := { rules := [] }, cfg := {}, input := exInput, toks := exToks, groups := #[], g1 := #[] }
     none 40 { skipws := true, ws := [' '] } exE 0 with | .ok p items => (p, items.length) | _ => (0, 0)) = (8, 4) := by
   decide +kernel
-
-/-! ## the full statement and why it is false -/
 
 /-- rendering of a model value that ignores object creation numbers (fuel-bounded) -/
 def render : Nat → Value → String
@@ -138,6 +150,38 @@ def render : Nat → Value → String
   | f+1, .list vs => "[" ++ String.intercalate "," (vs.map (render f)) ++ "]"
   | f+1, .obj _ cls _ attrs =>
       cls ++ "{" ++ String.intercalate "," ((attrs.filter fun a => !a.1.startsWith "\x00").map fun a => a.1 ++ "=" ++ render f a.2) ++ "}"
+
+/-- an object node with children `a='x'`, an unassigned `'k'`, `b+='y' ',' 'y'` (separator skipped) -/
+def exB : BCtx :=
+  { c := { nodes := #[{ node := { kind := .seq, kids := [1], root := true, rule := "__asgn_plain" }, attr := "a" },
+                      { node := { kind := .str, tok := 6 }, text := "x" },
+                      { node := { kind := .str, tok := 7 }, text := "k" },
+                      { node := { kind := .plus, kids := [4], root := true, rule := "__asgn_oneormore", sep := some 5 }, attr := "b" },
+                      { node := { kind := .str, tok := 8 }, text := "y" },
+                      { node := { kind := .str, tok := 9, rule := "sep" }, text := "," }],
+           top := 0, comments := none, classes := [], multSensitive := false },
+    cfg := {}, input := "x k y,y".toList.toArray, groups := #[], g1 := #[] }
+
+def exKids : List Val := [.nt 0 [.term 1 0 1], .term 2 2 1, .nt 3 [.term 4 4 1, .term 5 5 1, .term 4 6 1]]
+def exItems : List Sem.Item :=
+  [.asg "a" .plain [.prim (.str "x")], .tok "" false 7 "k" 2 1, .asg "b" .plus [.prim (.str "y"), .prim (.str "y")]]
+
+def exN0 : CNode := { node := { kind := .seq, kids := [1], root := true, rule := "__asgn_plain" }, attr := "a" }
+def exN2 : CNode := { node := { kind := .str, tok := 7 }, text := "k" }
+def exN3 : CNode :=
+  { node := { kind := .plus, kids := [4], root := true, rule := "__asgn_oneormore", sep := some 5 }, attr := "b" }
+
+example : BuildSim.KidsItems exB exKids exItems :=
+  .cons (BuildSim.KidItem.plain 0 exN0 (.term 1 0 1) [] (.prim (.str "x")) rfl rfl rfl)
+    (.cons (BuildSim.KidItem.tok 2 2 1 exN2 "" false 7 "k" rfl (by decide +kernel))
+      (.cons (BuildSim.KidItem.list 3 exN3 [.term 4 4 1, .term 5 5 1, .term 4 6 1] .plus
+          [.prim (.str "y"), .prim (.str "y")] rfl (Or.inl rfl) (Or.inl rfl) rfl (by simp)) .nil))
+
+example : (match processKids exB 20 exKids 0 [("a", .prim (.str "")), ("b", .list [])] {} with
+    | .ok (attrs, _) => render 5 (.obj 0 "M" none attrs)
+    | .error _ => "error") = "M{a=xs,b=[ys,ys]}" := by decide +kernel
+
+/-! ## the full statement and why it is false -/
 
 /-- do the outcome of the implementation mirror and of the documented semantics agree?
 (undecided runs — fuel, shapes outside either definition — count as agreeing) -/
